@@ -146,7 +146,7 @@ package websocket
 //@ specfn rfc_closeMustReject(int) bool = "rfc.closeMustReject"
 
 //@ modset BrMods(c) := c.br.g_rd, c.br.g_buffered, regionid(c.br.g_buf)
-//@ modset CtlMods(c) := c.g_ctlCount, c.g_ctlType, c.g_ctlCode, c.writeErr, c.g_closeSent, c.g_wfailed, c.conn.g_wn, c.conn.g_wire
+//@ modset CtlMods(c) := c.g_ctlCount, c.g_ctlType, c.g_ctlCode, c.writeErr, c.g_closeSent, c.g_wfailed, c.conn.g_wn, c.conn.g_wire, c.conn.g_wdl
 //@ modset ReaderMods(c) := c.readRemaining, c.readFinal, c.readLength, c.readMaskPos, c.readMaskKey, c.readDecompress, c.g_hcalls, c.g_hop, c.g_mlen, BrMods(c), CtlMods(c)
 
 //@ pred RInv(c) := c.br != nil && c.conn != nil && !held(c.mu) && c.br.g_buf > 0 && c.readRemaining >= 0 && c.br.g_size >= 125 && c.br.g_buffered >= 0 && c.br.g_rd >= 0 && \
@@ -351,7 +351,7 @@ package websocket
 
 //@ pred isControlT(t) := t == 8 || t == 9 || t == 10
 //@ pred isDataT(t) := t == 1 || t == 2
-//@ modset WireMods(c) := c.g_closeSent, c.g_wfailed, c.conn.g_wn, c.conn.g_wire, c.writeErr
+//@ modset WireMods(c) := c.g_closeSent, c.g_wfailed, c.conn.g_wn, c.conn.g_wire, c.conn.g_wdl, c.writeErr
 
 //@ func (*Conn).writeFatal
 //@ tags C09 C10
@@ -797,3 +797,76 @@ package websocket
 //@ ensures[C09.sent] imp(result == nil, c.writer == nil && c.g_out == c.g_acc && !c.g_wst)
 //@ ensures[C09.closed] imp(old(c.writeErr) != nil, result != nil)
 //@ ensures[C10.failstop] imp(result != nil && c.writer != nil, false)
+
+// ---------------------------------------------------------------------------
+// server.go
+
+//@ func computeAcceptKey
+//@ trusted
+//@ pure
+//@ ensures len(result) == 28
+
+//@ func (*Upgrader).returnError
+//@ tags C12
+//@ results conn err
+//@ ensures[C12.handshakeerr] conn == nil && err != nil && typeIs(err, "HandshakeError")
+
+//@ func dynamic:checkOrigin
+//@ params r
+//@ results result
+//@ trusted
+//@ pure
+
+//@ func (*brNetConn).Close
+//@ inline
+
+//@ func (net.Conn).Close
+//@ params conn
+//@ results err
+//@ dispatch (*brNetConn).Close
+//@ modifies conn.g_closed
+//@ ensures conn.g_closed
+
+//@ pred isZeroTime(t) := t.wall == 0 && t.ext == 0 && t.loc == nil
+
+//@ func (*Upgrader).Upgrade
+//@ tags C07 C12 C13 C15 C16 C17
+//@ results conn err
+//@ requires u.ReadBufferSize <= 1099511627776 && u.WriteBufferSize <= 1099511627776
+//@ bind okConn after call:tokenListContainsValue#1
+//@ bind okUpg after call:tokenListContainsValue#2
+//@ bind okVer after call:tokenListContainsValue#3
+//@ bind okOrigin after call:checkOrigin#1
+//@ bind okKey after call:isValidChallengeKey#1
+//@ bind ak after call:computeAcceptKey#1
+//@ bind hconn,hbrw,herr after call:Hijack#1
+//@ assert at call:returnError#1[C12.status]: arg3 == 400 && !okConn && w.g_hijacked == old(w.g_hijacked)
+//@ assert at call:returnError#2[C12.status]: arg3 == 426 && !okUpg && w.g_hijacked == old(w.g_hijacked)
+//@ assert at call:Set#1[C12.upgradehdr]: streq(arg1, "Upgrade") && streq(arg2, "websocket")
+//@ assert at call:returnError#3[C12.status]: arg3 == 405 && !streq(r.Method, "GET") && w.g_hijacked == old(w.g_hijacked)
+//@ assert at call:returnError#4[C12.status]: arg3 == 400 && !okVer && w.g_hijacked == old(w.g_hijacked)
+//@ assert at call:returnError#5[C12.status]: arg3 == 500 && w.g_hijacked == old(w.g_hijacked)
+//@ assert at call:returnError#6[C12+C13.status]: arg3 == 403 && !okOrigin && w.g_hijacked == old(w.g_hijacked)
+//@ assert at call:returnError#7[C12.status]: arg3 == 400 && !okKey && w.g_hijacked == old(w.g_hijacked)
+//@ assert at call:returnError#8[C12.status]: arg3 == 500 && herr != nil && w.g_hijacked == old(w.g_hijacked) + 1
+//@ assert at return#13[C12.onlyif]: okConn && okUpg && streq(r.Method, "GET") && okVer && okOrigin && okKey && herr == nil && w.g_hijacked == old(w.g_hijacked) + 1 && err == nil && conn != nil
+//@ assert at call:checkOrigin#1[C13.default]: imp(u.CheckOrigin == nil, true)
+//@ assert at call:append#5[C12.noinject.proto]: imp(u.Subprotocols == nil, forall(i, 0, len(arg1), arg1[i] > 31))
+//@ assert at call:append#7[C12+C15.extline]: compress && u.EnableCompression
+//@ assert at call:append#8[C12+C15.extonly]: imp(len(k) == 24 && forall(i, 0, 24, lower(k[i]) == lower("sec-websocket-extensions"[i])), false)
+//@ assert at call:append#10[C12.noinject]: len(arg1) == 1 && arg1[0] > 31
+//@ assert at call:Write#1[C12.template]: len(arg1) >= 127 && forall(i, 0, 97, arg1[i] == "HTTP/1.1 101 Switching Protocols\r\nUpgrade: websocket\r\nConnection: Upgrade\r\nSec-WebSocket-Accept: "[i])
+//@ assert at call:Write#1[C12.accept]: len(ak) == 28 && forall(i, 0, 28, arg1[97+i] == ak[i]) && arg1[125] == '\r' && arg1[126] == '\n' && arg1[len(arg1)-2] == '\r' && arg1[len(arg1)-1] == '\n'
+//@ assert at call:computeAcceptKey#1[C12.key]: arg0 == challengeKey && okKey
+//@ assert at call:newConn#1[C17.source]: arg1 && (arg5 == hbrw.Reader || (arg5 == nil && arg0 == hconn && hbrw.Reader.g_buffered == 0) || \
+//@     (arg5 == nil && typeIs(arg0, "*brNetConn") && asType(arg0, "*brNetConn").br == hbrw.Reader && asType(arg0, "*brNetConn").Conn == hconn))
+//@ assert at return#9[C16.cleanup]: hconn.g_closed && conn == nil && err != nil
+//@ assert at return#10[C16.cleanup]: hconn.g_closed && conn == nil && err != nil
+//@ assert at return#11[C16.cleanup]: hconn.g_closed && conn == nil && err != nil
+//@ assert at return#12[C16.cleanup]: hconn.g_closed && conn == nil && err != nil
+//@ assert at return#13[C16.open]: !hconn.g_closed && !conn.conn.g_wdl && (conn.conn == hconn || (typeIs(conn.conn, "*brNetConn") && asType(conn.conn, "*brNetConn").Conn == hconn))
+//@ assert at return#13[C15.server]: iff(conn.newCompressionWriter != nil, compress) && iff(conn.newDecompressionReader != nil, compress) && imp(compress, u.EnableCompression) && conn.isServer
+//@ loop 4 invariant 0 <= i && i <= len(v)
+//@ loop 2 invariant len(p) >= 127 && forall(i, 0, 97, p[i] == "HTTP/1.1 101 Switching Protocols\r\nUpgrade: websocket\r\nConnection: Upgrade\r\nSec-WebSocket-Accept: "[i]) && forall(i, 0, 28, p[97+i] == ak[i]) && p[125] == '\r' && p[126] == '\n'
+//@ loop 3 invariant len(p) >= 127 && forall(i, 0, 97, p[i] == "HTTP/1.1 101 Switching Protocols\r\nUpgrade: websocket\r\nConnection: Upgrade\r\nSec-WebSocket-Accept: "[i]) && forall(i, 0, 28, p[97+i] == ak[i]) && p[125] == '\r' && p[126] == '\n'
+//@ loop 4 invariant len(p) >= 127 && forall(i, 0, 97, p[i] == "HTTP/1.1 101 Switching Protocols\r\nUpgrade: websocket\r\nConnection: Upgrade\r\nSec-WebSocket-Accept: "[i]) && forall(i, 0, 28, p[97+i] == ak[i]) && p[125] == '\r' && p[126] == '\n'
